@@ -10,6 +10,8 @@
 //   DA / DI                       deliver what is in flight towards the acceptor / initiator (one FIX message per chunk)
 //   D                             DA, DI until nothing is in flight (at most 6 rounds)
 //   DROP                          in-flight bytes lost, both sides re-created on their persister files (acceptor first)
+//   OI / OA <msgspec>             OVERLAP: Session::send, and inside its modify_outbound hook the first message in flight
+//                                 towards the sender is delivered and fully processed by its reader thread
 //   CFG <a> <b>                   in-flight bytes lost, both sides re-created with start numbers: initiator ss=a rs=b,
 //                                 acceptor ss=b rs=a (later reconnects recover from the files only)
 //   RI / RA                       process restart of the initiator / acceptor: what is in flight towards the survivor
@@ -21,6 +23,28 @@
 namespace {
 
 using vsess::SessHarness;
+using namespace FIX8;
+
+// HSession with the public modify_outbound hook of Session: called by send_process after the MsgSeqNum has been
+// assigned and before the message is encoded, written and the control record is stored
+class OSession : public vsess::HSession
+{
+public:
+	std::function<void()> hook;        // one-shot
+	OSession(const F8MetaCntx& ctx, const SessionID& sid, Persister *persist, vsess::EventLog& log)
+		: vsess::HSession(ctx, sid, persist, log) {}
+	OSession(const F8MetaCntx& ctx, const sender_comp_id& sci, Persister *persist, vsess::EventLog& log)
+		: vsess::HSession(ctx, sci, persist, log) {}
+	void modify_outbound(Message *) override
+	{
+		if (hook)
+		{
+			std::function<void()> h(hook);
+			hook = nullptr;
+			h();
+		}
+	}
+};
 
 class Side : public SessHarness
 {
@@ -106,11 +130,76 @@ public:
 		return r + snap;
 	}
 
+	// the next send calls `h` from inside send_process (modify_outbound)
+	void set_hook(const std::function<void()>& h) { if (_os) _os->hook = h; }
+	void clear_hook() { if (_os) _os->hook = nullptr; }
+
 protected:
+	OSession *_os = nullptr;
+
+	// SessHarness::start with OSession in place of HSession (nothing else differs)
 	void start() override
 	{
 		_taken = 0;
-		SessHarness::start();
+		using namespace vsess;
+		if (_p.persist == "mem")
+			_per = new MemoryPersister;
+		else if (_p.persist == "file")
+		{
+			if (_dir.empty())
+			{
+				_dir = _tmp_root + "/c" + std::to_string(_case_no);
+				mkdir(_dir.c_str(), 0700);
+			}
+			FilePersister *fp(new FilePersister(0));
+			if (!fp->initialise(_dir, "sess.db", false))
+				_log.add("PERSIST-INIT-FAILED");
+			_per = fp;
+		}
+		else
+			_per = nullptr;
+
+		LoginParameters lp(defaults::retry_interval, 1, default_appl_ver_id(), defaults::connect_timeout,
+			_p.rsn, _p.asa, _p.sd, false, false, false, _p.ec, 0, 0, _p.hb);
+		for (const auto& c : _p.clients)
+			lp._clients.insert({c, Client(c, Poco::Net::IPAddress())});
+
+		_impl = new VSockImpl;
+		_impl->duplicate();
+		_impl->on_write = [this](const std::string& buf)
+		{
+			std::vector<std::string> msgs; std::string rest;
+			split_fix(buf, msgs, rest);
+			for (const auto& m : msgs) _log.add("OUT " + tohex(m));
+			if (!rest.empty()) _log.add("OUTRAW " + tohex(rest));
+		};
+		_sock = new Poco::Net::StreamSocket(_impl);
+		Poco::Net::SocketAddress addr("127.0.0.1", 34567);
+		if (_p.role == 'I')
+		{
+			_os = new OSession(UTEST::ctx(), SessionID(UTEST::ctx()._beginStr, _p.sender, _p.target), _per, _log);
+			_ss = _os;
+			_ss->set_login_parameters(lp);
+			_cconn = new HClientConn(_sock, addr, *_ss, _p.hb, _p.pm);
+			_conn = _cconn;
+		}
+		else
+		{
+			_os = new OSession(UTEST::ctx(), sender_comp_id(_p.sender), _per, _log);
+			_ss = _os;
+			_ss->set_login_parameters(lp);
+			_sconn = new HServerConn(_sock, addr, *_ss, _p.hb, _p.pm);
+			_conn = _sconn;
+		}
+		const int r(_ss->start(_conn, false, _p.ss, _p.rs));
+		_log.add("RET " + std::to_string(r));
+		wait_quiet();
+	}
+
+	void teardown() override
+	{
+		_os = nullptr;
+		SessHarness::teardown();
 	}
 };
 
@@ -135,6 +224,22 @@ struct Two
 	{
 		s.op({"SEND", spec});
 		append(f, s.take_writes());
+	}
+
+	// OVERLAP: while `s` is inside send_process (modify_outbound hook) the first message in flight towards it arrives
+	// and is fully processed by its reader thread; then the send finishes
+	void send_overlapped(Side& s, Flight& out, Flight& in, const std::string& spec)
+	{
+		std::vector<std::string> answered;
+		if (!in.empty())
+		{
+			const std::string first(in.front());
+			in.erase(in.begin());
+			s.set_hook([&s, first]() { s.op({"IN", tohex(first)}); });
+		}
+		s.op({"SEND", spec});
+		s.clear_hook();
+		append(out, s.take_writes());
 	}
 
 	// returns what the receiver wrote
@@ -166,6 +271,8 @@ struct Two
 		const std::string& op(t[0]);
 		if (op == "SI" && t.size() == 2) send(i, ia, t[1]);
 		else if (op == "SA" && t.size() == 2) send(a, ai, t[1]);
+		else if (op == "OI" && t.size() == 2) send_overlapped(i, ia, ai, t[1]);
+		else if (op == "OA" && t.size() == 2) send_overlapped(a, ai, ia, t[1]);
 		else if (op == "CFG" && t.size() == 3 && all_digits(t[1]) && all_digits(t[2])) reconnect(t[1], t[2]);
 		else if (t.size() != 1) { i.note("BADOP"); a.note("BADOP"); }
 		else if (op == "DA") deliver_a();
